@@ -20,11 +20,15 @@ type memoryQueue struct {
 	queue PriorityQueue
 	key   string
 	mutex sync.RWMutex
+	// firstEnqueued keeps the time an item entered the queue for the first time, so that an
+	// item that is dequeued and put back (blocked head) keeps its place among equal priorities.
+	firstEnqueued map[string]int64
 }
 
 func NewMemoryQueue(key string, _ time.Duration) publictypes.SharedQueueI {
 	memoryQueue := &memoryQueue{
-		key: fmt.Sprintf("%s%s", key, queueKeySuffix),
+		key:           fmt.Sprintf("%s%s", key, queueKeySuffix),
+		firstEnqueued: make(map[string]int64),
 	}
 	heap.Init(&memoryQueue.queue)
 	return memoryQueue
@@ -34,10 +38,15 @@ func (q *memoryQueue) Enqueue(item string, priority float64) error {
 	q.mutex.Lock()
 	defer q.mutex.Unlock()
 
+	timestamp, seen := q.firstEnqueued[item]
+	if !seen {
+		timestamp = time.Now().UnixNano()
+		q.firstEnqueued[item] = timestamp
+	}
 	heap.Push(&q.queue, &Item{
 		value:     item,
 		score:     calculateScore(priority),
-		timestamp: time.Now().UnixNano(),
+		timestamp: timestamp,
 	})
 	return nil
 }
@@ -64,6 +73,7 @@ func (q *memoryQueue) Remove(item string) {
 	q.mutex.Lock()
 	defer q.mutex.Unlock()
 
+	delete(q.firstEnqueued, item)
 	for i, v := range q.queue {
 		if v.value == item {
 			heap.Remove(&q.queue, i)
